@@ -18,7 +18,8 @@ func vrtHarness_C01_tdc() {
 	stream := vrtChoice(2) == 1
 	conn := &vrtConn{stream: stream}
 	dc := NewDnsConn(TraditionalDnsConnOpts{WithLengthHeader: stream, MaxConcurrentQuery: 8}, conn)
-	vrtSetCounter(&dc.nextQid, vrtU16(), vrtChoice(2) == 1)
+	fromTop := vrtChoice(2) == 1 // the counter is near the bottom or near the top of its type, whatever its width
+	vrtSetCounter(&dc.nextQid, vrtU16(), fromTop)
 	actions := vrtParam("server_actions", 2)
 	const strayTag = 0xEEEE
 
@@ -75,7 +76,7 @@ func vrtHarness_C01_tdc() {
 			if i == 1 {
 				// arbitrary many queries came and went: the counter is anywhere
 				dc.queueMu.Lock()
-				vrtSetCounter(&dc.nextQid, vrtU16(), vrtChoice(2) == 1)
+				vrtSetCounter(&dc.nextQid, vrtU16(), fromTop)
 				dc.queueMu.Unlock()
 			}
 			ex, _ := dc.ReserveNewQuery()
